@@ -27,6 +27,7 @@ import (
 	"os"
 	"sort"
 	"strings"
+	"sync"
 	"testing"
 	"time"
 
@@ -76,6 +77,7 @@ type vPlan16 struct {
 	MutPerPos int      `json:"mutperpos"` // mutations per byte position of each base certificate
 	TruncStep int      `json:"truncstep"` // every n-th truncation length
 	MintEvery int      `json:"mintevery"` // every n-th ModHex case also through a minted and parsed certificate
+	NRandMH   int      `json:"nrandmh"`   // direction B: random serial-extension values
 	Raw       []string `json:"raw"`       // replay: inputs (hex) to push through parser + extractor
 	NoB       bool     `json:"nob"`
 }
@@ -176,6 +178,7 @@ type vMint struct {
 	r       *mrand.Rand
 	subj    map[string][]crypto.Signer
 	issRSA  *rsa.PrivateKey
+	issRSA2 *rsa.PrivateKey
 	issEC   *ecdsa.PrivateKey
 	issTplR *x509.Certificate
 	issTplE *x509.Certificate
@@ -183,8 +186,8 @@ type vMint struct {
 
 func newMint(r *mrand.Rand) *vMint {
 	m := &vMint{r: r, subj: map[string][]crypto.Signer{}}
-	m.issRSA = rsaKey(2048)
-	m.issEC, _ = ecdsa.GenerateKey(elliptic.P384(), crand.Reader)
+	m.issRSA, m.issRSA2 = rsaKey(1536), rsaKey(2048) // issuer keys: mostly the small one (signing time), the parsers do not care
+	m.issEC, _ = ecdsa.GenerateKey(elliptic.P256(), crand.Reader)
 	for i := 0; i < 2; i++ {
 		m.subj["rsa"] = append(m.subj["rsa"], rsaKey(2048), rsaKey(1024))
 		for kt, cv := range map[string]elliptic.Curve{"p256": elliptic.P256(), "p384": elliptic.P384(), "p521": elliptic.P521()} {
@@ -258,7 +261,11 @@ func (m *vMint) mint(c vCase16, extra []pkix.Extension) vMinted {
 		tpl.Subject.Organization = []string{"Yubico AB"}
 		tpl.Subject.SerialNumber = fmt.Sprint(r.Int31())
 	}
-	parentTpl, signer := m.issTplR, crypto.Signer(m.issRSA)
+	issRSA := m.issRSA
+	if r.Intn(8) == 0 || verifh.Tier() == "thorough" {
+		issRSA = m.issRSA2
+	}
+	parentTpl, signer := m.issTplR, crypto.Signer(issRSA)
 	if strings.HasPrefix(c.Sa, "ecdsa") {
 		parentTpl, signer = m.issTplE, m.issEC
 	}
@@ -318,9 +325,9 @@ func (m *vMint) mint(c vCase16, extra []pkix.Extension) vMinted {
 			var err error
 			switch {
 			case strings.HasSuffix(c.Sa, "-rsa"):
-				s, err = rsa.SignPKCS1v15(nil, m.issRSA, hash, d)
+				s, err = rsa.SignPKCS1v15(nil, issRSA, hash, d)
 			case strings.HasSuffix(c.Sa, "-pss"):
-				s, err = rsa.SignPSS(crand.Reader, m.issRSA, hash, d, &rsa.PSSOptions{SaltLength: rsa.PSSSaltLengthEqualsHash})
+				s, err = rsa.SignPSS(crand.Reader, issRSA, hash, d, &rsa.PSSOptions{SaltLength: rsa.PSSSaltLengthEqualsHash})
 			default:
 				s, err = ecdsa.SignASN1(crand.Reader, m.issEC, d)
 			}
@@ -491,8 +498,11 @@ func (x *vRun16) emit(tid string, e *vE16) {
 	x.tr.Emit(vEvent{Ev: "step", P: "C16", Tid: tid, E: e})
 }
 
-func (x *vRun16) parseCase(ci int, c vCase16) {
-	mt := x.m.mint(c, nil)
+// parseObs mints one shape and observes both parsers (safe for concurrent use: its own generator)
+func (x *vRun16) parseObs(ci int, c vCase16) (*vE16, bool) {
+	m := *x.m
+	m.r = verifh.NewRand("attest16-shape", int64(ci))
+	mt := m.mint(c, nil)
 	e := &vE16{vCase16: c, Src: "A", Res: newRes16()}
 	y, s, pan := parseBoth(mt.der)
 	e.Res.Pan, e.Res.Yok, e.Res.Sok = pan, y != nil, s != nil
@@ -508,11 +518,30 @@ func (x *vRun16) parseCase(ci int, c vCase16) {
 			e.Res.Eq = compare(y, ref, mt.raw, mt.tbs, mt.sig)
 		}
 	}
-	if c.Tail == "clean" && c.Kt != "rsa-nonull" && s == nil {
-		x.st.StdRej++
+	return e, c.Tail == "clean" && c.Kt != "rsa-nonull" && s == nil
+}
+
+func (x *vRun16) parseCases(cases []vCase16, idx []int) {
+	out := make([]*vE16, len(idx))
+	rej := make([]bool, len(idx))
+	var wg sync.WaitGroup
+	for w := 0; w < 4; w++ {
+		wg.Add(1)
+		go func(w int) {
+			defer wg.Done()
+			for i := w; i < len(idx); i += 4 {
+				out[i], rej[i] = x.parseObs(idx[i], cases[idx[i]])
+			}
+		}(w)
 	}
-	x.st.Parse++
-	x.emit(fmt.Sprintf("p%d", ci), e)
+	wg.Wait()
+	for i, e := range out {
+		if rej[i] {
+			x.st.StdRej++
+		}
+		x.st.Parse++
+		x.emit(fmt.Sprintf("p%d", idx[i]), e)
+	}
 }
 
 var pemGarbage = []string{"garbage", "cut", "badder", "binary", "badbase64"}
@@ -680,7 +709,7 @@ func TestVerifAttest16(t *testing.T) {
 	if err != nil {
 		t.Fatal(err)
 	}
-	pregen([]int{1024, 2048})
+	pregen([]int{1024, 1536, 2048})
 	x := &vRun16{tr: tr, st: &vStats16{Distinct: map[string]int{}}, m: newMint(verifh.NewRand("attest16", 0))}
 	tr.Emit(vEvent{Ev: "reset", P: "C16", Tid: "reset"})
 	all := []string{"bc", "ku", "kid", "san", "eku", "pol", "vendor"}
@@ -688,6 +717,8 @@ func TestVerifAttest16(t *testing.T) {
 	for i, kt := range []string{"rsa", "p256", "rsa-nonull", "p384", "p521"} {
 		pool = append(pool, x.m.mint(vCase16{Kt: kt, Sa: []string{"sha256-rsa", "ecdsa-sha384"}[i%2], Exts: all[:1+i], Tail: "clean"}, nil).der)
 	}
+	var all16 []vCase16
+	var pidx []int
 	for ci, cc := range plan.Cases {
 		c := cc.C
 		if c.Exts == nil {
@@ -696,9 +727,14 @@ func TestVerifAttest16(t *testing.T) {
 		if c.Val == nil {
 			c.Val = []int{}
 		}
+		all16 = append(all16, c)
+		if c.Op == "parse" {
+			pidx = append(pidx, ci)
+		}
+	}
+	x.parseCases(all16, pidx)
+	for ci, c := range all16 {
 		switch c.Op {
-		case "parse":
-			x.parseCase(ci, c)
 		case "pem":
 			x.pemCase(ci, c, pool)
 		case "modhex":
@@ -713,6 +749,7 @@ func TestVerifAttest16(t *testing.T) {
 		x.raw(fmt.Sprintf("raw%d", i), "replay", "raw", b)
 	}
 	if !plan.NoB {
+		x.randomSerials(plan.NRandMH)
 		x.mutants(plan)
 	}
 	if err := tr.Close(); err != nil {
@@ -791,5 +828,32 @@ func (x *vRun16) mutants(plan *vPlan16) {
 			d[0], d[1] = 0x30, byte(len(d)-2)
 		}
 		x.raw(fmt.Sprintf("z%d", i), "none", "random", d)
+	}
+}
+
+// direction B for the extractor: random extension values (mostly well-formed 3- and 4-octet serials, some of other
+// lengths and with wrong headers); TLC computes the ModHex form of the recorded octets itself.
+func (x *vRun16) randomSerials(n int) {
+	r := verifh.NewRand("attest16-serial", 0)
+	for i := 0; i < n; i++ {
+		ln := []int{3, 4, 3, 4, 3, 4, 0, 1, 2, 5, 6}[r.Intn(11)]
+		val := []byte{2, byte(ln)}
+		for j := 0; j < ln; j++ {
+			val = append(val, byte(r.Intn(256)))
+		}
+		if r.Intn(10) == 0 {
+			val[r.Intn(2)] = byte(r.Intn(256))
+		}
+		if r.Intn(40) == 0 {
+			val = val[:r.Intn(3)]
+		}
+		c := vCase16{P: "C16", Op: "modhex", Kt: "rsa", Sa: "random", Exts: []string{}, Tail: "clean", Lead: "none", Trail: "none", Present: true, Val: []int{}}
+		for _, b := range val {
+			c.Val = append(c.Val, int(b))
+		}
+		e := &vE16{vCase16: c, Src: "A-direct-random"}
+		e.Res = modHexObs(&x509.Certificate{Extensions: []pkix.Extension{{Id: oidSerial, Value: val}}})
+		x.st.ModHex++
+		x.emit(fmt.Sprintf("hr%d", i), e)
 	}
 }
